@@ -300,7 +300,7 @@ def sany(module):
 
 # ------------------------------------------------------------------ corpus -> behaviours
 
-def behaviours_from_corpus(corpus, max_behaviours=None, rng=None, need=None):
+def behaviours_from_corpus(corpus, max_behaviours=None, rng=None, need=None, stratum=None):
     """corpus records {ops, obs, ...} are prefix closed (BFS: a state's recorded history extends
     its parent's; simulation: every step of a walk is printed). Leaves of the trie are the
     behaviours to replay; every prefix that was itself recorded contributes its expected
@@ -320,7 +320,21 @@ def behaviours_from_corpus(corpus, max_behaviours=None, rng=None, need=None):
     leaves.sort(key=lambda r: json.dumps(r["ops"], sort_keys=True))
     if max_behaviours is not None and len(leaves) > max_behaviours:
         rng = rng or random.Random(seed())
-        leaves = rng.sample(leaves, max_behaviours)
+        if stratum:
+            # stratified sample: the same share for every class stratum(ops) (e.g. the kind of the rejected call)
+            groups = {}
+            for r in leaves:
+                groups.setdefault(stratum(r["ops"]), []).append(r)
+            for g in groups.values():
+                rng.shuffle(g)
+            picked, order = [], sorted(groups)
+            while len(picked) < max_behaviours and any(groups.values()):
+                for k in order:
+                    if groups[k] and len(picked) < max_behaviours:
+                        picked.append(groups[k].pop())
+            leaves = picked
+        else:
+            leaves = rng.sample(leaves, max_behaviours)
     out = []
     for n, rec in enumerate(leaves):
         ops = rec["ops"]
